@@ -28,7 +28,7 @@ use winter_crypto::{
     DefaultRandomCoin, ElementHasher, MerkleTree, RandomCoin,
 };
 use winter_math::{fields::{f128, f62, f64}, ExtensibleField, FieldElement, StarkField};
-use winter_prover::{matrix::ColMatrix, DefaultConstraintEvaluator, DefaultTraceLde, Prover, StarkDomain, Trace, TracePolyTable};
+use winter_prover::{matrix::ColMatrix, AuxTraceWithMetadata, DefaultConstraintEvaluator, DefaultTraceLde, Prover, StarkDomain, Trace, TracePolyTable};
 use winter_verifier::{verify, AcceptableOptions, VerifierError};
 
 type B62 = f62::BaseElement;
@@ -77,6 +77,8 @@ fn case_desc(c: &Case) -> String {
 thread_local! {
     /// reference validity of the auxiliary segment built by the last `build_aux_trace` (None: no aux segment built)
     static AUX_VALID: RefCell<Option<bool>> = RefCell::new(None);
+    /// does Trace::validate (main + auxiliary segment, under catch_unwind) agree with the reference predicate?
+    static AUX_AGREE: RefCell<Option<bool>> = RefCell::new(None);
 }
 
 pub struct CProver<B: StarkField, H, R> {
@@ -130,6 +132,12 @@ where
         }
         let ok = aux_is_valid::<B, E>(&trace.spec, trace.main_segment(), &cols, aux_rand_elements.rand_elements());
         AUX_VALID.with(|v| *v.borrow_mut() = Some(ok));
+        // cross-check with the library's executable definition of validity, which the release prover never calls
+        let air = FamAir::<B>::new(trace.info().clone(), PubInputs { spec: trace.spec.clone(), avals: self.avals.clone() }, self.options.clone());
+        let atm = AuxTraceWithMetadata::<E, ()> { aux_trace: ColMatrix::new(cols.clone()), aux_rand_elements: aux_rand_elements.clone(), gkr_proof: None };
+        let lib_valid = catch(AssertUnwindSafe(|| trace.validate::<FamAir<B>, E>(&air, Some(&atm)))).is_ok();
+        let ref_valid = ok && is_valid(&trace.spec, &trace.cols(), &self.avals);
+        AUX_AGREE.with(|v| *v.borrow_mut() = Some(lib_valid == ref_valid));
         ColMatrix::new(cols)
     }
 }
@@ -186,8 +194,10 @@ where B: StarkField + ExtensibleField<2> + ExtensibleField<3> + 'static, H: Elem
     } else { None };
     let prover = CProver::<B, H, DefaultRandomCoin<H>> { options: opts.clone(), avals: published, aux_corrupt, _p: PhantomData };
     AUX_VALID.with(|v| *v.borrow_mut() = None);
+    AUX_AGREE.with(|v| *v.borrow_mut() = None);
     let res = catch(AssertUnwindSafe(|| prover.prove(trace)));
     let aux_valid = AUX_VALID.with(|v| *v.borrow()).unwrap_or(true);
+    let validate_agrees = validate_agrees.or(AUX_AGREE.with(|v| *v.borrow()));
     let valid = main_valid && aux_valid;
     let proof = match res {
         Ok(Ok(p)) => p,
@@ -385,7 +395,7 @@ fn gen_case(r: &mut Rng, idx: usize) -> Option<Case> {
 
 // ------------------------------------------------------------------------------------------------ judgement
 #[derive(Default)]
-struct Tally { evals: usize, fails: usize, classes: BTreeMap<String, [usize; 4]>, verdicts: BTreeMap<String, usize>, combos: BTreeMap<String, usize> }
+struct Tally { evals: usize, fails: usize, xchk: usize, classes: BTreeMap<String, [usize; 4]>, verdicts: BTreeMap<String, usize>, combos: BTreeMap<String, usize> }
 // per class: [cases, invalid&rejected, valid&accepted, skipped]
 
 fn fail_json(what: &str, c: &Case, expected: &str, actual: &str, extra: &str) -> String {
@@ -404,6 +414,7 @@ fn judge(c: &Case, t: &mut Tally, verbose: bool) {
     if c.idx % 97 == 0 { println!("sample {{\"case\":{},\"is_valid\":{},\"outcome\":{}}}", jstr(&case_desc(c)), run.valid, jstr(&format!("{:?}", run.outcome))); }
     *t.combos.entry(format!("{}/{}/ext{}", c.field, c.hasher, c.opts.ext)).or_insert(0) += 1;
     if verbose { println!("{}\nvalid={} validate_agrees={:?} outcome={:?}", case_desc(c), run.valid, run.validate_agrees, run.outcome); }
+    if run.validate_agrees.is_some() { t.xchk += 1; }
     if run.validate_agrees == Some(false) {
         t.fails += 1;
         println!("{}", fail_json("oracle-disagreement: is_valid vs Trace::validate", c, "same verdict", &format!("is_valid={}", run.valid), ""));
@@ -861,7 +872,8 @@ fn corr(r: &mut Rng, n: usize) -> Vec<String> {
     let mut done = 0;
     while done < n && i < 20 * n + 20 {
         i += 1;
-        let field = FIELDS[i % 3];
+        // the extracted field arithmetic (inductive Z, Fermat inversion) is slow for 128-bit values: f128 once in six
+        let field = ["f64", "f62", "f64", "f128", "f62", "f64"][i % 6];
         let blowup = *r.pick(&[2usize, 4, 8]);
         let mut spec = if r.chance(1, 3) { random_spec(r, 5, blowup) } else { structured_spec(r, blowup.max(2), false, 1) };
         spec.aux_width = 0; spec.aux_rands = 0;
@@ -869,7 +881,7 @@ fn corr(r: &mut Rng, n: usize) -> Vec<String> {
         let lde = spec.n() * blowup;
         // at least one FRI layer so that layer-0 openings exist
         let (fold, rem) = pick_fri(r, lde, blowup);
-        let o = Opts { q: 1 + r.below(12) as usize, blowup, grind: *r.pick(&[0u32, 0, 4]), ext: 1, fold, rem };
+        let o = Opts { q: 1 + r.below(8) as usize, blowup, grind: *r.pick(&[0u32, 0, 4]), ext: 1, fold, rem };
         let po = match make_opts(&o) { Some(p) => p, None => continue };
         if !fri_wellformed(lde, blowup, fold, rem) || o.q >= lde || !ctx_accepts(&spec, &po) || !admissible(&spec, blowup) { continue; }
         if po.to_fri_options().num_fri_layers(lde) == 0 { continue; }
@@ -920,7 +932,7 @@ fn cmd_run(args: &[String], cmd: String, seed: u64, n: usize) {
             println!("verdicts {{{}}}", vd.join(","));
             let cb: Vec<String> = t.combos.iter().map(|(k, v)| format!("{}:{}", jstr(k), v)).collect();
             println!("combos {{{}}}", cb.join(","));
-            println!("evaluations={} failures={}", t.evals, t.fails);
+            println!("evaluations={} failures={} validate_crosschecks={}", t.evals, t.fails, t.xchk);
         }
         _ => { eprintln!("usage: c02 corr|falsify|one <seed> <n> [idx]"); std::process::exit(2); }
     }
